@@ -75,7 +75,9 @@ def gen_cases(ctx):
         style = ["classic", "classic", "recirc", "flexible"][i % 4]
         lo_j = rng.randint(2, 3); lo_m = rng.randint(2, 3)
         gp = {"num_jobs": [lo_j, lo_j + rng.randint(0, 2)], "num_machines": [lo_m, lo_m + rng.randint(0, 2)],
-              "duration_range": [1, rng.choice([5, 20])], "allow_recirculation": style == "recirc",
+              # (dummy operations of duration 0 are valid; small ranges make them frequent)
+              "duration_range": [0, rng.choice([2, 3])] if style == "classic" and i % 8 == 1
+              else [1, rng.choice([5, 20])], "allow_recirculation": style == "recirc",
               "machines_per_operation": [1, 2] if style == "flexible" else 1,
               "seed": rng.randrange(10**6)}
         yield {"kind": "multi", "instance": {"cls": "generated-" + style}, "generator": gp,
